@@ -52,18 +52,23 @@ Definition known_K1 (c : case) : bool :=
 
 (* K2: a loud comment with a line break inside, written in compressed style
    (comments survive compression only in plain CSS input) *)
-Fixpoint comment_with_nl (st : state) (x : bytes) : bool :=
+(* `bang` = only comments whose text starts with `!` count (SCSS input: the others
+   are dropped when compressed); `fresh` = the previous byte opened the comment *)
+Fixpoint comment_with_nl (bang : bool) (st : state) (fresh : bool) (live : bool) (x : bytes) : bool :=
   match x with
   | [] => false
   | c :: r =>
+      let st' := step st c in
       match fst st with
-      | Com | ComStar => if c =? 10 then true else comment_with_nl (step st c) r
-      | _ => comment_with_nl (step st c) r
+      | Com | ComStar =>
+          let live' := if fresh then (negb bang || (c =? 33)) else live in
+          if (c =? 10) && live' then true else comment_with_nl bang st' false live' r
+      | NSlash => comment_with_nl bang st' (match fst st' with Com => true | _ => false end) false r
+      | _ => comment_with_nl bang st' false false r
       end
   end.
 Definition known_K2 (c : case) : bool :=
-  negb (c_scss c) && comment_with_nl (N0, []) (c_src c).
-
+  comment_with_nl (c_scss c) (N0, []) false false (c_src c).
 
 (* K3: the arguments of an at-rule that rsass copies to the output (every at-rule
    that is neither a Sass directive nor @media) span several lines in the source *)
